@@ -13,6 +13,7 @@ import PV.Proofs.C12Lemmas
 import PV.Proofs.C01bLemmas
 import PV.Proofs.C12bLemmas
 import Mathlib.Tactic.NormNum
+import Mathlib.Tactic.Ring
 
 namespace PV
 open Scalar
@@ -97,6 +98,49 @@ theorem c12_member_sublist_of_merged (idls : List (List Int)) (idl : List Int) (
     exact List.mem_flatMap.mpr ⟨idl, hmem, hx⟩
   have hnd : idl.Nodup := hinc.imp (fun h => ne_of_lt h)
   exact List.sublist_of_subperm_of_pairwise (hnd.subperm hsub) hinc hm
+
+/-- **C12 (dobs, one chain of one observable end to end).**  Let the chain have configuration list `idl`,
+    zero-mean fluctuations `ds`, replica mean `r`, and let `v` be the central value of the observable.  The
+    writer puts `d + (r - v)` in the column; if none of these numbers is the marker 0, the import - column
+    scan, `+ v`, `np.average`, subtraction - returns the configuration list, every fluctuation and the replica
+    mean exactly, for every merged list the chain is a sub-list of. -/
+theorem c12_dobs_chain_roundtrip (v r : ℝ) (merged idl : List Int) (ds : List ℝ)
+    (hnd : merged.Nodup) (hs : idl.Sublist merged) (hl : ds.length = idl.length) (hne : ds ≠ [])
+    (hzero : ds.sum = 0) (hnz : ∀ d ∈ ds, d + (r - v) ≠ 0) :
+    dobsChain (dobsImport merged (dobsColumn merged idl (ds.map (· + (r - v)))) v) = (idl, ds, r) := by
+  have hz : Scalar.isZero (@OfNat.ofNat ℝ 0 (Scalar.instOfNatScalar 0)) = true := by
+    simp [Scalar.isZero, RealS.ofNat_eq_lit, RealS.lit_eq]
+  rw [c12_dobs_roundtrip_partial v hz merged idl _ hnd hs (by simpa using hl)]
+  · unfold dobsChain
+    have h1 : ((idl.zip (ds.map (· + (r - v)))).map (fun p => (p.1, p.2 + v))).map (·.1) = idl := by
+      rw [List.map_map]
+      have : ((fun p : Int × ℝ => p.1) ∘ fun p : Int × ℝ => (p.1, p.2 + v)) = Prod.fst := by funext p; rfl
+      rw [this, List.map_fst_zip]
+      simp [hl]
+    have h2 : ((idl.zip (ds.map (· + (r - v)))).map (fun p => (p.1, p.2 + v))).map (·.2) = ds.map (· + r) := by
+      rw [List.map_map]
+      have : ((fun p : Int × ℝ => p.2) ∘ fun p : Int × ℝ => (p.1, p.2 + v)) = (fun x => x + v) ∘ Prod.snd := by funext p; rfl
+      rw [this, ← List.map_map, List.map_snd_zip (by simp [hl]), List.map_map]
+      apply List.map_congr_left
+      intro x _
+      simp only [Function.comp]
+      ring
+    simp only [h1, h2]
+    have hm : Scalar.sum (ds.map (· + r)) / Scalar.ofNatS (ds.map (· + r)).length = r := by
+      have := C03b.mean_add_const ds r hne
+      unfold mean at this
+      rw [this]
+      simp [RealS.sum_eq, hzero]
+    rw [hm]
+    congr 2
+    rw [List.map_map]
+    conv_rhs => rw [← List.map_id ds]
+    apply List.map_congr_left
+    intro x _
+    simp
+  · intro x hx
+    obtain ⟨d, hd, rfl⟩ := List.mem_map.mp hx
+    simpa [Scalar.isZero] using hnz d hd
 
 /-! ### the pobs format (PV/Model/Pobs.lean) -/
 
